@@ -167,21 +167,21 @@ Lemma ufield32 x y r1 r2 : in_u 32 x = true -> in_u 32 y = true ->
 Proof. intros Hx Hy. apply in_u_true in Hx, Hy. pows. apply field_ord; pows; lia. Qed.
 
 (* ------------------------------------------------------------------ vector components / JSON numbers *)
-Lemma venc_tot b : in_u 32 b = true -> bad32 b = false -> venc b = tot32 b + SIGN32.
+Lemma venc_tot b : in_u 32 b = true -> venc b = tot32 b + SIGN32.
 Proof.
-  intros W K. destruct (split32 b W) as [Hm Hb].
-  unfold venc, lt0_32, tot32, bad32, bnot, flip in *. unfold SIGN32 in *. pows.
-  destruct (neg32 b) eqn:Es; cbn [andb] in *.
-  - destruct (mag32 b =? 0) eqn:Ez; cbn [orb negb andb] in *; [discriminate|]. rewrite K. cbn [negb]. lia.
+  intros W. destruct (split32 b W) as [Hm Hb].
+  unfold venc, tot32, bnot, flip in *. unfold SIGN32 in *. pows.
+  destruct (neg32 b) eqn:Es.
+  - lia.
   - destruct (b <? 2147483648) eqn:C; lia.
 Qed.
 
-Lemma jnenc_tot b : in_u 64 b = true -> bad64 b = false -> jnenc b = tot64 b + SIGN64.
+Lemma jnenc_tot b : in_u 64 b = true -> jnenc b = tot64 b + SIGN64.
 Proof.
-  intros W K. destruct (split64 b W) as [Hm Hb].
-  unfold jnenc, lt0_64, tot64, bad64, bnot, flip in *. unfold SIGN64 in *. pows.
-  destruct (neg64 b) eqn:Es; cbn [andb] in *.
-  - destruct (mag64 b =? 0) eqn:Ez; cbn [orb negb andb] in *; [discriminate|]. rewrite K. cbn [negb]. lia.
+  intros W. destruct (split64 b W) as [Hm Hb].
+  unfold jnenc, tot64, bnot, flip in *. unfold SIGN64 in *. pows.
+  destruct (neg64 b) eqn:Es.
+  - lia.
   - destruct (b <? 9223372036854775808) eqn:C; lia.
 Qed.
 
@@ -196,29 +196,29 @@ Proof.
   destruct (neg64 b); lia.
 Qed.
 
-Lemma vcomp_ord p q r1 r2 : in_u 32 p = true -> in_u 32 q = true -> bad32 p = false -> bad32 q = false ->
+Lemma vcomp_ord p q r1 r2 : in_u 32 p = true -> in_u 32 q = true ->
   lex_cmp (be_bytes 4 (venc p) ++ r1) (be_bytes 4 (venc q) ++ r2) = cthen (tot32 p ?= tot32 q) (lex_cmp r1 r2).
 Proof.
-  intros Wp Wq Kp Kq. rewrite !venc_tot by assumption.
+  intros Wp Wq. rewrite !venc_tot by assumption.
   rewrite field_ord by (apply tot32_range; assumption). f_equal. cmp_shift.
 Qed.
 
-Lemma jnum_ord p q r1 r2 : in_u 64 p = true -> in_u 64 q = true -> bad64 p = false -> bad64 q = false ->
+Lemma jnum_ord p q r1 r2 : in_u 64 p = true -> in_u 64 q = true ->
   lex_cmp (be_bytes 8 (jnenc p) ++ r1) (be_bytes 8 (jnenc q) ++ r2) = cthen (tot64 p ?= tot64 q) (lex_cmp r1 r2).
 Proof.
-  intros Wp Wq Kp Kq. rewrite !jnenc_tot by assumption.
+  intros Wp Wq. rewrite !jnenc_tot by assumption.
   rewrite field_ord by (apply tot64_range; assumption). f_equal. cmp_shift.
 Qed.
 
 Lemma vcomps_ord x : forall y r1 r2, length x = length y ->
-  forallb (in_u 32) x = true -> forallb (in_u 32) y = true -> existsb bad32 x = false -> existsb bad32 y = false ->
+  forallb (in_u 32) x = true -> forallb (in_u 32) y = true ->
   lex_cmp (flat_map (fun b => be_bytes 4 (venc b)) x ++ r1) (flat_map (fun b => be_bytes 4 (venc b)) y ++ r2)
   = cthen (lex_by (fun p q => tot32 p ?= tot32 q) x y) (lex_cmp r1 r2).
 Proof.
-  induction x as [|p x IH]; intros [|q y] r1 r2 HL Wx Wy Kx Ky; cbn [length] in HL; try discriminate.
+  induction x as [|p x IH]; intros [|q y] r1 r2 HL Wx Wy; cbn [length] in HL; try discriminate.
   - reflexivity.
-  - cbn [forallb existsb] in *. apply andb_true_iff in Wx, Wy. apply orb_false_iff in Kx, Ky.
-    destruct Wx as [Wp Wx], Wy as [Wq Wy], Kx as [Kp Kx], Ky as [Kq Ky].
+  - cbn [forallb] in *. apply andb_true_iff in Wx, Wy.
+    destruct Wx as [Wp Wx], Wy as [Wq Wy].
     cbn [flat_map lex_by]. rewrite <- !app_assoc. rewrite vcomp_ord by assumption.
     rewrite IH by (try assumption; lia). rewrite cthen_assoc. reflexivity.
 Qed.
